@@ -150,6 +150,9 @@ def run(ctx):
     # the no-target path returns url unchanged
     plain = [r for r in rets if r.term == ("param", "url")]
     ctx.ob("R2", "returns-input-when-nothing-found", bool(plain), "infer_redirection has no path returning its argument unchanged", site)
+    ctx.rule("R3", "the cleaning step of infer_redirection deletes control characters only: a printable character (a space inside the embedded target) deleted before the search makes the returned target differ from the one literally embedded in the url")
+    from .c02 import control_chars_language
+    control_chars_language(ctx, "R3")
 
 
 def _not_longer_than_url(ctx, t):
